@@ -4,6 +4,7 @@
 From Coq Require Import ZArith List Bool String Reals.
 From VQ Require Import Num Model.Vec Model.Core Proofs.CoreEMA Proofs.CoreMask Glue.CoreGlue Glue.Pin_p_mask.
 From VQ Require Import Model.Einops Glue.EinopsGlueBase Glue.EinopsGlueMask.
+From VQ Require Import Glue.LensGlue.
 Import ListNotations.
 Open Scope R_scope.
 
@@ -154,3 +155,14 @@ Theorem C09_src_mask_replication_both_sites :
        find_role pr_vq.pr_vq "VectorQuantize.forward:loss_mask" "repeat" 1.
 Proof. exact (@EinopsGlueMask.einops_mask_repeat_same). Qed.
 Print Assumptions C09_src_mask_replication_both_sites.
+
+Theorem C09_src_lens_to_mask :
+  forall n len : Z, k_lens_to_mask.k_lens_to_mask n len = true <-> (n < len)%Z.
+Proof. exact (@LensGlue.glue_lens_to_mask). Qed.
+Print Assumptions C09_src_lens_to_mask.
+
+Theorem C09_src_lens_mask_is_prefix :
+  forall n m len : Z,
+       (n <= m)%Z -> k_lens_to_mask.k_lens_to_mask m len = true -> k_lens_to_mask.k_lens_to_mask n len = true.
+Proof. exact (@LensGlue.lens_mask_is_prefix). Qed.
+Print Assumptions C09_src_lens_mask_is_prefix.
